@@ -361,11 +361,9 @@ def borrow(run: Run, as_rule: str, fn, *args, only_rules=None):
     try:
         fn(sub, *args)
     except AnalysisError as e:
-        run.error(as_rule, f'{e.rule}: {e.reason}')
-        return sub
+        run.error(as_rule, f'{e.rule}: {e.reason}')        # what was found before the analysis gave up still counts
     except Exception as e:
         run.error(as_rule, f'internal error in shared rule: {type(e).__name__}: {e}')
-        return sub
     for o in sub.obligations:
         if only_rules and o['rule'] not in only_rules:
             continue
